@@ -339,7 +339,22 @@ def witnessInbound : List Member :=
   [⟨cpre ++ ['s'], .sym, ['.', '.', '/', '.', '.', '/', 'o'], 0o777, []⟩,
    ⟨cpre ++ ['s', '/', 'b'], .sym, ['/', 'z'], 0o777, []⟩]
 
-/-- the statement is false for the dispatch before commit 8ba1640 (three independent ways) -/
+/-- the re-extraction fallback of `TarFile.makelink`: `d/s` names an earlier symbolic link member
+(extracted into `e/` while `d -> e`), but after `d` was re-pointed to `e2` nothing of that name is on
+disk, so `os.link` is not tried; tarfile re-creates the member `d/s` (a symbolic link to the victim)
+at the place of the hard link and applies the hard link's mode through it -/
+def witnessFallback : List Member :=
+  [⟨cpre ++ ['e'], .dir, [], 0o755, []⟩, ⟨cpre ++ ['f'], .dir, [], 0o755, []⟩,
+   ⟨cpre ++ ['d'], .sym, ['e'], 0o777, []⟩, ⟨cpre ++ ['d', '/', 's'], .sym, ['/', 'j', '/', 'v'], 0o777, []⟩,
+   ⟨cpre ++ ['d'], .sym, ['f'], 0o777, []⟩, ⟨cpre ++ ['h'], .lnk, cpre ++ ['d', '/', 's'], 0o777, []⟩]
+
+/-- the only way into that fallback which the current dispatch leaves open: all checks pass, but the
+link's own path lies below a regular file (`ENOTDIR` for `os.link`) -/
+def fallbackBelowFile : List Member :=
+  [⟨cpre ++ ['h'], .reg, [], 0o644, ['H']⟩, ⟨cpre ++ ['g'], .sym, ['/', 'j', '/', 'v'], 0o777, []⟩,
+   ⟨cpre ++ ['k'], .reg, [], 0o644, ['K']⟩, ⟨cpre ++ ['h', '/', 'x'], .lnk, cpre ++ ['k'], 0o777, []⟩]
+
+/-- the statement is false for the dispatch before commit 8ba1640 (four independent ways) -/
 theorem asIs_refuted_hardlink : ¬ extract_confined_goal (Cfg.asIs 50) := by
   intro h
   have := (h jailDest jailAudit jail vsn1 witnessHardlink (jail_ready _ rfl)).2 [nJ, nV] 1 (by unfold Inside; decide) (by decide) (by decide)
@@ -355,13 +370,26 @@ theorem asIs_refuted_inbound_symlink : ¬ extract_confined_goal (Cfg.asIs 50) :=
   have := (h jailDest jailAudit jail vsn1 witnessInbound (jail_ready _ rfl)).1 [nJ, nO, nB] (by unfold Inside; decide) (by decide)
   exact absurd this (by decide +kernel)
 
+theorem asIs_refuted_fallback : ¬ extract_confined_goal (Cfg.asIs 50) := by
+  intro h
+  have := (h jailDest jailAudit jail vsn1 witnessFallback (jail_ready _ rfl)).2 [nJ, nV] 1 (by unfold Inside; decide) (by decide) (by decide)
+  exact absurd this.1 (by decide +kernel)
+
 /-- normalising the hard link name is not a repair: the link name of this witness stays inside -/
 theorem lexical_refuted : ¬ extract_confined_goal (Cfg.lexical 50) := by
   intro h
   have := (h jailDest jailAudit jail vsn1 witnessHardlinkToSymlink (jail_ready _ rfl)).2 [nJ, nV] 1 (by unfold Inside; decide) (by decide) (by decide)
   exact absurd this.1 (by decide +kernel)
 
-/-- and the current dispatch rejects all four witnesses -/
+/-- and the current dispatch rejects all five witnesses; where it does enter the fallback (`os.link`
+below a regular file) the re-extraction changes nothing and the exhausted stream ends the run -/
+example :
+    (extractPackage (Cfg.current 50) jailDest jailAudit vsn1 jail witnessFallback).err = some .filterLink ∧
+    (extractPackage (Cfg.asIs 50) jailDest jailAudit vsn1 jail witnessFallback).err = some .streamerror ∧
+    (extractPackage (Cfg.current 50) jailDest jailAudit vsn1 jail fallbackBelowFile).err = some .streamerror ∧
+    (extractPackage (Cfg.current 50) jailDest jailAudit vsn1 jail fallbackBelowFile).fs.look (jailDest ++ [['h'], ['x']]) = none := by
+  refine ⟨by decide +kernel, by decide +kernel, by decide +kernel, by decide +kernel⟩
+
 example :
     (extractPackage (Cfg.current 50) jailDest jailAudit vsn1 jail witnessHardlink).err = some .filterLink ∧
     (extractPackage (Cfg.current 50) jailDest jailAudit vsn1 jail witnessHardlinkToSymlink).err = some .filterLink ∧
